@@ -32,7 +32,7 @@ in the abstraction of the reached state. -/
 theorem C34_linearizable (c : AllCfg) (hc : c.q.Good) (p : Params) (s : St)
     (h : Reachable c.q p s) :
     Spec.run (Spec.init s.clients.length) s.hist = some (abs s) :=
-  hist_accepted hc.1 h (Or.inl hc.2)
+  hist_accepted hc.1 hc.2.2.2 h (Or.inl ⟨hc.2.1, hc.2.2.1⟩)
 
 /-- **Rejected writes have no effect** (any configuration, also the as-is one): the step that
 returns an error class (or the as-is panic) to a client leaves the store and the whole commit
@@ -61,14 +61,17 @@ theorem C34_applied_write_readable (c : AllCfg) (_hc : c.q.Struct) (p : Params) 
 
 /-- **The linearization point lies between enqueue and acknowledgement** (any configuration):
 in every reachable state a request that is still queued or batched has not taken effect and is
-not acknowledged; a request that is applied but not yet acknowledged has taken effect (exactly
-once: the request ids in queue ++ batch ++ applied are pairwise distinct); an acknowledged
-client has taken effect. -/
+not acknowledged; a request waiting for its acknowledgement either has taken effect (exactly
+once: the request ids in queue ++ batch ++ applied are pairwise distinct) or was failed by the
+pipeline and has not (`failed`: it and everything behind it in its batch get the error,
+unapplied); an acknowledged client is in one of these two states. -/
 theorem C34_lin_between_enqueue_and_ack (c : AllCfg) (_hc : c.q.Struct) (p : Params) (s : St)
     (h : Reachable c.q p s) (t : Nat) (cl : Client) (hcl : s.clients[t]? = some cl) :
-    (t ∈ s.queue ++ s.batch → cl.lin = none ∧ cl.acked = false) ∧
-    (t ∈ s.applied → cl.lin = some .ok ∧ cl.acked = false) ∧
-    (cl.acked = true → cl.lin = some .ok) ∧
+    (t ∈ s.queue ++ s.batch → cl.lin = none ∧ cl.acked = false ∧ cl.failed = false) ∧
+    (t ∈ s.applied → cl.acked = false ∧
+      ((cl.failed = false ∧ cl.lin = some .ok) ∨ (cl.failed = true ∧ cl.lin = none))) ∧
+    (cl.acked = true →
+      ((cl.failed = false ∧ cl.lin = some .ok) ∨ (cl.failed = true ∧ cl.lin = none))) ∧
     (s.queue ++ s.batch ++ s.applied).Nodup := by
   obtain ⟨ia, _⟩ := inv_reachable h
   exact ⟨fun hm => (ia.qb t cl hcl hm).2, fun hm => (ia.ap t cl hcl hm).2, ia.al t cl hcl, ia.nd⟩
@@ -85,10 +88,10 @@ both flags are good; kept because it is what still holds if one of them regresse
 -/
 /-- Lemma (superseded partial): linearizability of the histories before `Close`, from the
 structural facts alone. -/
-theorem C34_linearizable_partial (c : AllCfg) (hc : c.q.Struct) (p : Params) (s : St)
-    (h : Reachable c.q p s) (h0 : s.clPc = 0) :
+theorem C34_linearizable_partial (c : AllCfg) (hc : c.q.Struct ∧ c.q.waitErrKeepsRef = true)
+    (p : Params) (s : St) (h : Reachable c.q p s) (h0 : s.clPc = 0) :
     Spec.run (Spec.init s.clients.length) s.hist = some (abs s) :=
-  hist_accepted hc h (Or.inr h0)
+  hist_accepted hc.1 hc.2 h (Or.inr h0)
 
 /-! ### the as-is tree -/
 
@@ -147,7 +150,43 @@ theorem C34_fails_asis_get_after_close (c : AllCfg)
     simp [hr] at h
     exact ⟨s, ⟨1, getAfterClose, hr⟩, h.1, h.2⟩
 
+/-- `Set k v` is batched, the LSM write fails, the request is acknowledged with the error. -/
+def pipelineFailure : List Act :=
+  [.call 0 (.set k v), .cstep 0, .cstep 0, .cstep 0, .cstep 0, .wpop, .wfail, .wack, .cstep 0]
+
+/-- As-is (`waitErrKeepsRef = false`): when the commit pipeline reports an error for a request
+(`req.Wait()` returns it), `setEntry` releases the entry once more after the request already
+released it: the call panics (`kv.Entry.DecrRef: refcount underflow`) instead of returning
+the error — `call; ret panic` is not a history of the register object. -/
+theorem C34_fails_asis_wait_error_panics (c : AllCfg)
+    (hc : c.q = { QCfg.good with waitErrKeepsRef := false }) :
+    ∃ s, Reachable c.q {} s ∧ Spec.run (Spec.init s.clients.length) s.hist = none ∧
+      s.hist = [.call 0 (.set k v), .ret 0 .panic] := by
+  have h : verdict c.q pipelineFailure = some (none, [.call 0 (.set k v), .ret 0 .panic]) := by
+    rw [hc]; decide
+  unfold verdict at h
+  cases hr : run c.q {} (St.init 1) pipelineFailure with
+  | none => simp [hr] at h
+  | some s =>
+    simp [hr] at h
+    exact ⟨s, ⟨1, pipelineFailure, hr⟩, h.1, h.2⟩
+
 /-! ### non-vacuity -/
+
+/-- good configuration: a batch of three whose middle request fails: the first is applied and
+acknowledged, the second AND the third return `ioerr` and are not applied; accepted -/
+example :
+    ((run QCfg.good {} (St.init 3)
+      [.call 0 (.set k v), .call 1 (.set [0x6c] [0x01]), .call 2 (.set [0x6d] [0x02]),
+       .cstep 0, .cstep 0, .cstep 0, .cstep 0, .cstep 1, .cstep 1, .cstep 1, .cstep 1,
+       .cstep 2, .cstep 2, .cstep 2, .cstep 2,
+       .wpop, .wmore, .wmore, .wapply, .wfail, .wfail, .wack, .wack, .wack,
+       .cstep 0, .cstep 1, .cstep 2]).map
+      fun s => (Spec.run (Spec.init 3) s.hist == some (abs s),
+        s.hist.filter (fun e => match e with | .ret _ _ => true | _ => false),
+        Store.read s.store [0x6d])) =
+    some (true, [.ret 0 .ok, .ret 1 .ioerr, .ret 2 .ioerr], .notfound) := by decide
+
 
 example : QCfg.good.Good := by decide
 
